@@ -374,3 +374,120 @@ func ExploreQuery(cfg vrt.Config, bound int, maxExecs int64, mk func() (map[stri
 
 // MaxSched / MaxMap are the per-kind deviation caps used by ExploreQuery (0 = none).
 var MaxSched, MaxMap int
+
+// ---------------------------------------------------------------------------------------------
+// snapshots (read-only checks)
+
+type snapNode struct {
+	kind   byte // 'm' map, 's' slice, 'v' scalar
+	m      map[string]*snapNode
+	elems  []*snapNode
+	spare  []*snapNode // contents of the slice between len and cap
+	scalar any
+}
+
+// Snapshot records the full content of a JSON-like value, including the spare capacity of slices.
+func Snapshot(v any) *snapNode {
+	switch t := v.(type) {
+	case map[string]any:
+		n := &snapNode{kind: 'm', m: make(map[string]*snapNode, len(t))}
+		for k, x := range t {
+			n.m[k] = Snapshot(x)
+		}
+		return n
+	case []any:
+		n := &snapNode{kind: 's'}
+		for _, x := range t {
+			n.elems = append(n.elems, Snapshot(x))
+		}
+		for _, x := range t[len(t):cap(t)] {
+			n.spare = append(n.spare, Snapshot(x))
+		}
+		return n
+	}
+	return &snapNode{kind: 'v', scalar: v}
+}
+
+// Diff compares the value with the snapshot and returns a description of the first difference
+// ("" if none).  It is cycle-safe on v.
+func (n *snapNode) Diff(v any) string {
+	return n.diff(v, "$", map[uintptr]bool{})
+}
+
+func (n *snapNode) diff(v any, path string, onPath map[uintptr]bool) string {
+	switch t := v.(type) {
+	case map[string]any:
+		if n.kind != 'm' {
+			return path + ": became an object"
+		}
+		ptr := reflect.ValueOf(t).Pointer()
+		if onPath[ptr] {
+			return path + ": reference cycle"
+		}
+		onPath[ptr] = true
+		defer delete(onPath, ptr)
+		keys := make([]string, 0, len(t))
+		for k := range t {
+			keys = append(keys, k)
+		}
+		sort.Strings(keys)
+		for _, k := range keys {
+			c, ok := n.m[k]
+			if !ok {
+				return fmt.Sprintf("%s: key %q was added (value of type %T)", path, k, t[k])
+			}
+			if d := c.diff(t[k], path+"."+k, onPath); d != "" {
+				return d
+			}
+		}
+		for k := range n.m {
+			if _, ok := t[k]; !ok {
+				return fmt.Sprintf("%s: key %q was removed", path, k)
+			}
+		}
+		return ""
+	case []any:
+		if n.kind != 's' {
+			return path + ": became an array"
+		}
+		if len(t) != len(n.elems) {
+			return fmt.Sprintf("%s: length changed from %d to %d", path, len(n.elems), len(t))
+		}
+		for i, x := range t {
+			if d := n.elems[i].diff(x, fmt.Sprintf("%s[%d]", path, i), onPath); d != "" {
+				return d
+			}
+		}
+		sp := t[len(t):cap(t)]
+		if len(sp) != len(n.spare) {
+			return fmt.Sprintf("%s: capacity changed", path)
+		}
+		for i, x := range sp {
+			if d := n.spare[i].diff(x, fmt.Sprintf("%s[spare %d]", path, i), onPath); d != "" {
+				return d
+			}
+		}
+		return ""
+	}
+	if n.kind != 'v' {
+		return fmt.Sprintf("%s: replaced by a value of type %T", path, v)
+	}
+	if !scalarEqual(n.scalar, v) {
+		return fmt.Sprintf("%s: changed from %s to %s", path, Render(n.scalar), Render(v))
+	}
+	return ""
+}
+
+func scalarEqual(a, b any) bool {
+	defer func() { recover() }()
+	if a == nil || b == nil {
+		return a == nil && b == nil
+	}
+	if reflect.TypeOf(a) != reflect.TypeOf(b) {
+		return false
+	}
+	if !reflect.TypeOf(a).Comparable() {
+		return false
+	}
+	return a == b
+}
